@@ -38,6 +38,9 @@ CHECKS["C07"] = ("bounded-exhaustive enumeration of string/REP spellings x DF x 
 CHECKS["C08"] = ("small-scope exhaustive enumeration of all well-formed programs up to K items, each assembled by the real Preprocessor and run by a replica of the driver loop around the real Interpreter (bound to the real driver by running the smaller scopes through the CLI binary), compared with a reference interpreter on the AST",
     "Every well-formed program with at most 5 (quick) / 6 (thorough) items over a 21-25 item alphabet (labels at every position incl. start, jumps, loop, calls, procedures with explicit/implied ret, macro use, nop, hlt, print): complete executed trace, halt reason and final registers equal the reference interpreter's; programs up to 3/4 items plus hand-built special cases also through the real binary with stdout matched against the reference events.",
     "DESIGN.md section 6 C08")
+CHECKS["C09"] = ("bounded-exhaustive enumeration of every catalog shape x products of adversarial register/segment values over the registers it reads x memory backgrounds, executed on the real Interpreter built with integer-overflow checks; panics caught; CLI runs for the interrupt services at the top of memory",
+    "About 13 000 instruction shapes (every mnemonic x operand form x address form x override) x adversarial products (offsets/values/segments that make seg*16+off straddle 2^20, counts, divisors) x 2 memory backgrounds: every execution must end in a defined State or a reported error - a caught panic (index out of range, arithmetic or shift overflow) or a non-terminating REPEAT is the violation; 135 CLI programs drive INT 10h/21h with buffers at 0xFFFFF.",
+    "DESIGN.md section 6 C09")
 NOT_YET = {}
 
 def main():
